@@ -31,6 +31,8 @@ def coq_statements(imports, lemmas):
     return res
 
 def build(pid, title, imports, table, append_to=None):
+    if not append_to:
+        imports = BASE_IMPORTS + [i for i in imports if i not in BASE_IMPORTS]
     sts = coq_statements(imports, [t[1] for t in table])
     out = []
     if not append_to:
